@@ -25,7 +25,9 @@ RULE = (
     "harness-assembled block system; non-trivial = grid not K-orthogonal (perturbed, simplex, "
     "affine image) or at least one Neumann face; distinct by (grid, mu, lambda, Neumann set, i); "
     "two extra cases validate the harness block layout against closed-form expansion / shear "
-    "solutions on Cartesian grids (failure = harness error, not a verdict)"
+    "solutions on Cartesian grids (failure = harness error, not a verdict); scale axis "
+    "{1e-3, 1e3} on one grid per family, where the discretization is also repeated on the SAME "
+    "grid and data dictionary; grid, stiffness and bc arrays are digested before / after (purity)"
 )
 ASSUMPTIONS = [
     "constant Lame parameters; every boundary face entirely Dirichlet (value = translation) "
@@ -46,7 +48,9 @@ ASSUMPTIONS = [
 BOUNDS = {
     "quick": "2-d: C(2,2), T(2,2) x 3 offsets of the interior node x all 256 assignments; C(3,2), T(3,2) @shear "
     "side-wise + <=1 flips; 3-d: Tet(1,1,1)~, C(2,2,2)@shear, C(2,2,2)~np (non-planar faces) "
-    "side-wise (64) + <=1 flips; (mu,lambda) in {(1,1),(1,10),(3,0.5)} plus (3,0) stress-only",
+    "side-wise (64) + <=1 flips; (mu,lambda) in {(1,1),(1,10),(3,0.5)} plus (3,0) stress-only; "
+    "scale in {1e-3,1e3} with repeated discretize on C(2,2)~, T(2,2)~, Tet(1,1,1)~, C(2,2,2)@shear "
+    "side-wise, (mu,lambda)=(1,10)",
     "thorough": "2-d: C(2,2), T(2,2) x 9 offsets x 256 assignments; C(3,2), T(3,2) @id/@shear/@skew "
     "all 1024 assignments; C(3,2) x 81 offset pairs side-wise; 3-d: Tet(1,1,1) x 27 offsets, "
     "C(2,2,2) @id/@shear/@skew, C(2,2,2)~np x 26 offsets of the centre node, Tet(2,1,1)@skew, "
@@ -76,8 +80,15 @@ def _sides_flips(spec, k, nparts=1):
     return out
 
 
+def _scale_cases():
+    fam = [{"kind": "cart", "n": [2, 2], "pert": [[4, [1, -1]]]}, {"kind": "tri", "n": [2, 2], "pert": [[4, [1, -1]]]},
+           {"kind": "tet", "n": [1, 1, 1], "pert": [[7, [1, -1, 1]]]}, {"kind": "cart", "n": [2, 2, 2], "map": "shear"}]
+    return [{"grid": dict(sp, scale=sc) if sc != 1.0 else dict(sp), "mu": 1.0, "lam": 10.0, "reuse": True,
+             "assign": {"mode": "sides", "part": 0, "nparts": 1}} for sp in fam for sc in (1.0, 1e-3, 1e3)]
+
+
 def cases(tier):
-    out = [{"validate": 2}, {"validate": 3}]
+    out = [{"validate": 2}, {"validate": 3}] + _scale_cases()
     c22, t22 = {"kind": "cart", "n": [2, 2]}, {"kind": "tri", "n": [2, 2]}
     c32, t32 = {"kind": "cart", "n": [3, 2]}, {"kind": "tri", "n": [3, 2]}
     tet1 = {"kind": "tet", "n": [1, 1, 1]}
@@ -150,6 +161,9 @@ def run_case(case) -> Outcome:
     gname = G.name(spec)
     korth = spec["kind"] == "cart" and not spec.get("pert") and spec.get("map", "id") == "id"
     gcls = f"{d}d/{_gridclass(spec)}"
+    if spec.get("scale", 1) != 1:
+        gcls += f"/x{spec['scale']:g}"
+    reuse = bool(case.get("reuse"))
     tol_s = TOL * 2 * mu * amax / hmin
     tol_u, tol_r, tol_p = TOL, TOL * mu / hmin, TOL * max(mu, lam) / hmin
     tol_res = TOL * amax * max(2 * mu / hmin, 1.0)
@@ -165,7 +179,11 @@ def run_case(case) -> Outcome:
         do_solve = dirf.size > 0 and lam > 0
         singular = False
         try:
-            disc, M = T.discretize(g, mu, lam, bc)
+            dig0 = G.digest(g, bc)
+            disc, M = T.discretize(g, mu, lam, bc, twice=reuse)
+            if G.digest(g, bc) != dig0:
+                out.violate("Tpsa.discretize modified its grid / boundary-condition arguments", **base)
+                out.ev(f"{gcls}/{bccls}/impure/VIOLATION")
             fd, rm, div, acc = T.assemble(disc, M, g, mu, lam if do_solve else None)
             S, BS = M[disc.stress_displacement_matrix_key], M[disc.bound_stress_matrix_key]
             A = (div @ fd - acc).toarray() if do_solve else None
@@ -221,7 +239,7 @@ def run_case(case) -> Outcome:
                     elif ep.max() > tol_p:
                         bad = ("TPSA solve returns non-zero solid pressure for a translation",
                                {"cell": int(np.argmax(ep)), "observed": float(ep.max()), "tol": tol_p})
-            cls = f"{gcls}/{bccls}/" + (("stress+residual(singular)" if singular else "stress+solve") if do_solve else "stress-only")
+            cls = f"{gcls}/{bccls}/" + ("reuse/" if reuse else "") + (("stress+residual(singular)" if singular else "stress+solve") if do_solve else "stress-only")
             if bad is not None:
                 if len(out.violations) < 5:
                     out.violate(bad[0], translation=a, **bad[1], **base)
